@@ -48,7 +48,9 @@ def c_members(P):
     P.attr_hooks[("ObjectAliasMixin", "all_members")] = lambda P_, o: old_all if o is old else (new_all if o is new else (_ for _ in ()).throw(Unsupported("all_members")))
     calls = []
     P.opaque_hooks[DF + "_type_based_yield"] = lambda P_, a, k: (calls.append((a, k)), [Opaque("delegated")])[1]
-    kind, res = outcome(P, lambda: call(P, DF + "_member_incompatibilities", old, new, seen_paths=models.SymSet()))
+    # the paths already compared on the way here: an arbitrary set (what is removed must be reported whatever was seen before)
+    seen = models.SymSet(items=[], parts=[sym_seq(P, "seen_paths", lambda i: SStr(z3.Function("SEEN_PATH", IntS, StrS)(zint(i))))])
+    kind, res = outcome(P, lambda: call(P, DF + "_member_incompatibilities", old, new, seen_paths=seen))
     P.prove("never_raises_before_iterating", kind == "ok", exc=str(res))
     if kind != "ok" or not isinstance(res, loops.SCat):
         raise Unsupported("expected a flat-map summary")
